@@ -747,7 +747,7 @@ func c06Bogus(r *rand.Rand, cfg *c06Cfg, pools c06IDPools) {
 }
 
 // c06Expected computes ⋃ B(r) ∖ supp(c).
-func c06Expected(t *c06Table, typ string, cfg *c06Cfg, sel []string, base map[string][]lintAnn, sc *c06Scope, importOnly map[string]bool, excludeImports bool) (map[string]lintAnn, error) {
+func c06Expected(t *c06Table, typ string, cfg *c06Cfg, sel []string, base map[string][]lintAnn, sc *c06Scope, importOnly map[string]bool, excludeImports bool, against ...*c06Against) (map[string]lintAnn, error) {
 	// ignore_only: key -> rules it stands for
 	ioRules := map[string][]string{}
 	for id, paths := range cfg.IgnoreOnly {
@@ -765,6 +765,17 @@ func c06Expected(t *c06Table, typ string, cfg *c06Cfg, sel []string, base map[st
 			if a.Path != "" && (underPath(a.Path, cfg.Ignore) || underPath(a.Path, ioRules[r])) {
 				continue
 			}
+			// breaking: paths and the import exclusion apply to the against-location as well (bufcheck client, ignoreAnnotation)
+			if len(against) > 0 && against[0] != nil {
+				if ap := against[0].Path(a); ap != "" {
+					if underPath(ap, cfg.Ignore) || underPath(ap, ioRules[r]) {
+						continue
+					}
+					if excludeImports && against[0].ImportOnly[ap] {
+						continue
+					}
+				}
+			}
 			if excludeImports && importOnly[a.Path] {
 				continue
 			}
@@ -775,6 +786,14 @@ func c06Expected(t *c06Table, typ string, cfg *c06Cfg, sel []string, base map[st
 		}
 	}
 	return out, nil
+}
+
+// c06Against describes the against-side of breaking annotations where it differs from the annotation's own file.
+type c06Against struct {
+	// Path returns the file of the against-location ("" = the annotation's own file).
+	Path func(lintAnn) string
+	// ImportOnly: files that are only imports in the against image.
+	ImportOnly map[string]bool
 }
 
 func diffAnnSets(want, got map[string]lintAnn) (missing, extra []string) {
